@@ -107,6 +107,7 @@ impl<'a> D<'a> {
                 self.w(match ct { ir::CallType::FreeFunction => "free", ir::CallType::MethodExternal => "method", ir::CallType::MethodInternal => "internal" });
                 self.w(if m.function_registry.get_intrinsic_data(*fid).is_some() { "intrinsic" } else { "user" });
                 self.w(sig.param_types.len().to_string());
+                self.w(sig.non_default_params.min(sig.param_types.len()).to_string());
                 for p in &sig.param_types {
                     self.w(match p.input_modifier { ir::InputModifier::In => "0", ir::InputModifier::Out => "1", ir::InputModifier::InOut => "2" });
                     self.ty(p.type_id);
